@@ -415,6 +415,7 @@ func codeFenceLength(source []byte, block *commonmark.Block) int {
 						minFence = state
 					}
 					state = -1
+					indent = 0
 				case fence:
 					if state < 0 {
 						state = 1
@@ -430,6 +431,7 @@ func codeFenceLength(source []byte, block *commonmark.Block) int {
 				minFence = state
 			}
 			state = -1
+			indent = 0
 		case commonmark.IndentKind:
 			if state == -1 {
 				indent += inl.IndentWidth()
